@@ -6,6 +6,7 @@ import (
 	"fmt"
 	"math/big"
 	"strings"
+	"sync"
 
 	"github.com/libsv/go-bk/bec"
 	"github.com/libsv/go-bt/v2"
@@ -301,6 +302,25 @@ func c15Hashes(thorough bool) [][]byte {
 	return hs
 }
 
+// keysWithShortX returns private keys whose public X coordinate starts with a zero
+// byte (about one key in 256): serialisations assembled from big.Int bytes lose it.
+var shortXOnce sync.Once
+var shortXKeys [][]byte
+
+func keysWithShortX() [][]byte {
+	shortXOnce.Do(func() {
+		for i := 1; len(shortXKeys) < 2 && i < 20000; i++ {
+			k := make([]byte, 32)
+			k[30], k[31] = byte(i>>8), byte(i)
+			_, pub := bec.PrivKeyFromBytes(bec.S256(), k)
+			if c := pub.SerialiseCompressed(); c[1] == 0 {
+				shortXKeys = append(shortXKeys, k)
+			}
+		}
+	})
+	return shortXKeys
+}
+
 func testPrivKeys(n int) [][]byte {
 	out := [][]byte{}
 	one := make([]byte, 32)
@@ -317,7 +337,7 @@ func testPrivKeys(n int) [][]byte {
 
 func init() {
 	p := register(&Prop{ID: "C15", Level: "exploration",
-		Rule: "exhaustive: for 12 (quick) / 28 (thorough) 20-byte hashes (all-zero, leading zeros, all-ff, structured) and 6/12 keys, both networks: derivation through every address/P2PKH constructor compared with a reference Base58Check encoder and the canonical 25-byte script; and for every derived address EVERY single-character substitution (58 symbols x every position), adjacent transposition, insertion (58 symbols + 6 non-Base58 characters at every gap incl. a leading '1') and deletion, plus wrong version bytes (0x05,0xc4,0x01) and 24/26-byte payloads with correct checksums, each through NewAddressFromString, NewP2PKHFromAddress, PayToAddress, ChangeToAddress and ValidateAddress: accepted iff the reference decoder accepts. distinct_nontrivial = distinct strings judged",
+		Rule: "exhaustive: for 12 (quick) / 28 (thorough) 20-byte hashes (all-zero, leading zeros, all-ff, structured) and 6/12 keys, both networks: derivation through every address/P2PKH constructor compared with a reference Base58Check encoder and the canonical 25-byte script; and for every derived address EVERY single-character substitution (58 symbols x every position), adjacent transposition, insertion (58 symbols + 6 non-Base58 characters at every gap incl. a leading '1') and deletion, plus wrong version bytes (0x05,0xc4,0x01), 24/26-byte payloads with correct checksums and over-long strings whose value is the payload plus k*2^200 (k in 9 values incl. multiples of 58); keys include two whose X coordinate begins with a zero byte, each through NewAddressFromString, NewP2PKHFromAddress, PayToAddress, ChangeToAddress and ValidateAddress: accepted iff the reference decoder accepts. distinct_nontrivial = distinct strings judged",
 	})
 	sStr := NewSpace(p, "strings", c15StrCheck)
 	sKey := NewSpace(p, "derive", c15KeyCheck)
@@ -330,7 +350,7 @@ func init() {
 		if thorough {
 			nk = 12
 		}
-		for _, k := range testPrivKeys(nk) {
+		for _, k := range append(testPrivKeys(nk), keysWithShortX()...) {
 			keys = append(keys, c15Key{PrivKey: k, Mainnet: true}, c15Key{PrivKey: k, Mainnet: false})
 		}
 		(&Space[c15Key]{P: p, Name: sKey.Name, Check: func(c c15Key) []rep.Finding {
@@ -388,6 +408,26 @@ func init() {
 				for _, hl := range []int{19, 21} {
 					pl := append([]byte{0x00}, fill(hl, 7)...)
 					yield(c15Str{refB58Encode(append(pl, sighashref.Sha256d(pl)[:4]...))})
+				}
+				// strings whose Base58 value is the payload plus a multiple of 2^200 (a fixed-width
+				// decoder that loses an overflow would read them as the valid address)
+				{
+					pl := append([]byte{0x00}, hash...)
+					if !k.Mainnet {
+						pl[0] = 0x6f
+					}
+					full := append(pl, sighashref.Sha256d(pl)[:4]...)
+					v := new(big.Int).SetBytes(full)
+					zeros := 0
+					for zeros < len(full) && full[zeros] == 0 {
+						zeros++
+					}
+					for _, mul := range []int64{1, 2, 57, 58, 59, 116, 58 * 58, 58*58*58 + 58, 255} {
+						w := new(big.Int).Add(v, new(big.Int).Mul(big.NewInt(mul), new(big.Int).Lsh(big.NewInt(1), 200)))
+						enc := refB58Encode(w.Bytes())
+						yield(c15Str{strings.Repeat("1", zeros) + enc})
+						yield(c15Str{enc})
+					}
 				}
 				yield(c15Str{""})
 				yield(c15Str{"1"})
